@@ -206,6 +206,20 @@ func active(state string) bool {
 	return strings.HasPrefix(state, "GC ") || strings.HasPrefix(state, "timer")
 }
 
+// gcWait recognises a goroutine parked on a runtime-internal semaphore on behalf of the
+// garbage collector (wait reason "semacquire" with runtime.gcStart / stop-the-world frames):
+// an allocation that triggers a GC cycle waits for worldsema, which the stop-the-world of
+// our own runtime.Stack(all) polling keeps taking - it is runnable work, not a blocked
+// operation.  (sync.WaitGroup.Wait also shows "semacquire", and is genuinely blocked.)
+func gcWait(g G) bool {
+	if g.State != "semacquire" {
+		return false
+	}
+	return strings.Contains(g.Stack, "runtime.gcStart") || strings.Contains(g.Stack, "runtime.stopTheWorld") ||
+		strings.Contains(g.Stack, "runtime.GC(") || strings.Contains(g.Stack, "runtime.gcMarkDone") ||
+		!strings.Contains(g.Stack, "sync.(*WaitGroup).Wait")
+}
+
 // ErrNotQuiescent is returned when the budget is exhausted.
 var ErrNotQuiescent = fmt.Errorf("no quiescent snapshot within budget")
 
@@ -227,7 +241,7 @@ func QuiesceBudget(polls int) ([]G, error) {
 			if g.ID == self {
 				continue
 			}
-			if active(g.State) {
+			if active(g.State) || gcWait(g) {
 				busy = true
 				break
 			}
